@@ -336,8 +336,8 @@ def compare(expected, chars, cfg, devs, tag):
             bad = ("fontname", c.fontname, e["fontname"])
         elif not color_eq(e["ncolor"], c.graphicstate.ncolor):
             bad = ("fill-colour", c.graphicstate.ncolor, e["ncolor"])
-        elif e["kind"] == "type1" and 65 <= e["code"] < 91 and c.get_text() != chr(e["code"]):
-            bad = ("text", c.get_text(), chr(e["code"]))
+        elif e["kind"] == "type1" and (65 <= e["code"] < 91 or e.get("text")) and c.get_text() != (e.get("text") or chr(e["code"])):
+            bad = ("text", c.get_text(), e.get("text") or chr(e["code"]))
         if bad:
             devs.append(Dev("C05:%s:wrong-%s" % (tag, bad[0]), "glyph #%d (code %d): %s = %r, text model gives %r; %s" % (i, e["code"], bad[0], bad[1], bad[2], cfg)))
             return
